@@ -94,7 +94,7 @@ func TestVerif_C14(t *testing.T) {
 		return
 	}
 	rep := vk.NewReport(t, "C14", "fault_enumeration")
-	rep.Rule = "file-backed databases opened through a fault-injecting database/sql driver; for a generated batch history and a chosen batch, every driver call index k (begin, each of the 5 prepares, every statement exec, commit) is failed in turn with {error returned by the driver, context cancelled at the call}, and sampled k (all k in the thorough tier) with {process killed at the call (child process, no rollback, parent reopens)}; after every faulted attempt, every retry, the final success and one more repetition a query panel must equal the model (failed => no-op, succeeded => applied once); close/reopen at seeded points between batches, followed by newer versions / deletion requests aimed at pre-restart rows; a few cases run through NewSQLiteHandler's retry loop; non-trivial = a fault that fired inside a batch that would have changed the database; distinct = distinct (fault kind, driver call kind, batch shape)"
+	rep.Rule = "file-backed databases opened through a fault-injecting database/sql driver; for a generated batch history and a chosen batch, every driver call index k (begin, each of the 5 prepares, every statement exec, commit) is failed in turn with {error returned by the driver, context cancelled at the call}, and sampled k (all k in the thorough tier) with {process killed at the call (child process, no rollback, parent reopens)}; after every faulted attempt, every retry, the final success and one more repetition a query panel must equal the model (failed => no-op, succeeded => applied once); close/reopen at seeded points between batches, followed by newer versions / deletion requests aimed at pre-restart rows; a few cases run through NewSQLiteHandler's retry loop; handler-level restarts (history through one handler, stop, close, reopen, new handler: a REQ panel is answered as before and as the model says; deletion requests by address only / by id only / mixed); non-trivial = a fault that fired inside a batch that would have changed the database; distinct = distinct (fault kind, driver call kind, batch shape)"
 	rep.Assume("a batch is 'failed' iff insertEvents returned an error (or its process died before the commit call was made)")
 	defer rep.Finish()
 	ctx := context.Background()
@@ -516,6 +516,150 @@ func TestVerif_C14(t *testing.T) {
 		rep.Count("handler_cases", 1)
 	})
 
+	// restart at the handler level: a history goes through one SQLiteHandler, the handler is
+	// stopped, the database closed and reopened, and a new handler over it must answer every
+	// REQ of a panel as the first one did (and as the model says); one case in three keeps
+	// only deletion requests that reference by address, one in three only those by id
+	nR := vk.N(12, 120)
+	vk.ParallelW(12, nR, func(i int) {
+		r := vk.RNG("C14/handler-restart", i)
+		path := filepath.Join(dir, fmt.Sprintf("hr%d.db", i))
+		g := sqlHistoryGen(r)
+		g.BigEvery = 0
+		fg := &vk.FilterGen{R: r, Authors: g.Authors, TimeLo: g.TimeBase, TimeHi: g.TimeBase + g.TimeRange}
+		keep := r.IntN(3) // 0: all deletion requests, 1: only pure a-tag ones, 2: only pure e-tag ones
+		var evs []*mocrelay.Event
+		for k, n := 0, 12+r.IntN(30); k < n; k++ {
+			e := g.Next()
+			if vk.ClassOf(e.Kind) == vk.Ephemeral {
+				continue
+			}
+			if e.Kind == 5 && keep != 0 {
+				ids, addrs := vk.DeletionRefs(e)
+				if keep == 1 && len(ids) > 0 || keep == 2 && len(addrs) > 0 {
+					continue
+				}
+			}
+			evs = append(evs, e)
+		}
+		model := vk.NewSQLModel()
+		open := func() (*sql.DB, mocrelay.Handler, context.CancelFunc, bool) {
+			db, _ := faultsql.Open("file:" + path)
+			db.SetMaxOpenConns(1)
+			hctx, hcancel := context.WithCancel(ctx)
+			h, err := NewSQLiteHandler(hctx, db, &SQLiteHandlerOption{EventBulkInsertNum: 1, MaxLimit: NoLimit})
+			if err != nil {
+				hcancel()
+				db.Close()
+				rep.Violation("sqlite/new-handler", err.Error(), nil)
+				return nil, nil, nil, false
+			}
+			return db, h, hcancel, true
+		}
+		ask := func(h mocrelay.Handler, panel [][]*mocrelay.ReqFilter) ([][]*mocrelay.Event, bool) {
+			s := vk.StartSession(ctx, h, 64)
+			defer s.Stop()
+			out := make([][]*mocrelay.Event, len(panel))
+			for k, fs := range panel {
+				if !s.Put(&mocrelay.ClientReqMsg{SubscriptionID: fmt.Sprintf("q%d", k), ReqFilters: fs}) {
+					return nil, false
+				}
+				for {
+					m, ok := s.Get()
+					if !ok {
+						return nil, false
+					}
+					if _, is := m.(*mocrelay.ServerEOSEMsg); is {
+						break
+					}
+					if em, is := m.(*mocrelay.ServerEventMsg); is {
+						out[k] = append(out[k], em.Event)
+					}
+				}
+			}
+			return out, true
+		}
+		db, h, hcancel, ok := open()
+		if !ok {
+			return
+		}
+		s := vk.StartSession(ctx, h, 256)
+		for _, e := range evs {
+			s.Put(&mocrelay.ClientEventMsg{Event: e})
+			if _, ok := s.Get(); !ok {
+				rep.Inconclusive("C14: handler-restart history was not acknowledged")
+				s.Stop()
+				hcancel()
+				db.Close()
+				return
+			}
+			model.Insert(e)
+		}
+		s.Stop()
+		// quiescence of the background inserter: every stored row of the model is there
+		deadline := time.Now().Add(vk.WaitBound)
+		for {
+			var cnt int
+			db.QueryRowContext(ctx, "select count(*) from events").Scan(&cnt)
+			if cnt >= len(model.Stored()) {
+				break
+			}
+			if time.Now().After(deadline) {
+				rep.Inconclusive("C14: handler did not reach quiescence before the restart")
+				hcancel()
+				db.Close()
+				return
+			}
+			time.Sleep(2 * time.Millisecond)
+		}
+		var seed uint32
+		db.QueryRowContext(ctx, "select seed from xxhash_seed").Scan(&seed)
+		if keyCollision(seed, evs) {
+			hcancel()
+			db.Close()
+			return
+		}
+		panel := c14Panel(r, fg)
+		judge := func(stage string, got [][]*mocrelay.Event) bool {
+			for k, fs := range panel {
+				rep.Eval(1)
+				if v := vk.CheckQuery(model.Live(), fs, got[k]); !v.OK {
+					rep.Violation("handler-"+stage+"/"+classifySQLAnswer(v.Sig, false, model, g.Offered, got[k]), "a REQ answered by the handler "+stage+": "+v.Why,
+						map[string]any{"events": shortEvs(evs), "filters": fs, "answer": shortEvs(got[k]), "model_live": shortEvs(model.Live()), "deletion_requests_kept": []string{"all", "by address only", "by id only"}[keep]})
+					return false
+				}
+			}
+			return true
+		}
+		before, ok := ask(h, panel)
+		hcancel()
+		db.Close()
+		if !ok {
+			rep.Inconclusive("C14: the first handler did not answer the panel")
+			return
+		}
+		if !judge("before-restart", before) {
+			return
+		}
+		db2, h2, hcancel2, ok := open()
+		if !ok {
+			return
+		}
+		defer db2.Close()
+		defer hcancel2()
+		after, ok := ask(h2, panel)
+		if !ok {
+			rep.Violation("handler-after-restart/no-answer", "the handler over the reopened database did not answer the panel", map[string]any{"events": shortEvs(evs)})
+			return
+		}
+		if !judge("after-restart", after) {
+			return
+		}
+		rep.Count("handler_restarts", 1)
+		rep.Count(fmt.Sprintf("handler_restarts_deletions_%s", []string{"all", "by_address_only", "by_id_only"}[keep]), 1)
+		rep.Nontrivial(fmt.Sprintf("handler-restart/%d/%d/%d", keep, len(evs), len(model.Live())))
+	})
+
 	// faults below the driver: the same kind of histories in a child process whose
 	// pwrite64 / fsync / fdatasync system calls are failed by strace (EIO / ENOSPC at the
 	// N-th call), which reaches SQLite's own error paths (journal write, sync, commit)
@@ -563,6 +707,7 @@ func TestVerif_C14(t *testing.T) {
 	rep.Require(rep.Counter("kills") >= int64(nHist), "kill runs")
 	rep.Require(rep.Counter("large_batch_faults") >= int64(nHist/8*6), "large-batch faults")
 	rep.Require(rep.Counter("reopens") > 5, "reopens")
+	rep.Require(rep.Counter("handler_restarts") >= int64(nR*2/3), "handler restarts")
 	rep.Require(rep.SetSize("fault_points") >= 20, "fault point kinds (mode x call kind)")
 	rep.Require(rep.Counter("handler_retries_after_fault") >= 1, "handler retry cases")
 }
